@@ -273,3 +273,50 @@ Qed.
 (* current Transitions.matrix(): an event to "no site" is counted in the last column *)
 Theorem nosite_folded_refuted : exists n rows i j, entry n rows i j <> pcount (i, j) rows.
 Proof. exists 2, [(0, -1)], 0, 1. vm_compute. discriminate. Qed.
+
+(* ---------- occupancy by label (occupancy_by_site_type, atom_locations) ---------- *)
+Lemma occ_flat_is_occ_count : forall states i, occ_flat states i = occ_count states i.
+Proof.
+  intros states i. unfold occ_flat, occ_count. induction states as [|c r IH]; [reflexivity|].
+  cbn [concat map zsum]. rewrite filter_app, app_length, Nat2Z.inj_add, IH. reflexivity.
+Qed.
+
+Lemma zsum_indicator : forall (L : list Z) a f, NoDup L -> In a L -> zsum (map (fun la => if a =? la then f else 0) L) = f.
+Proof.
+  induction L as [|x L IH]; intros a f Hnd Hin; [destruct Hin|].
+  inversion Hnd as [|? ? Hx Hnd']; subst. cbn [map zsum]. destruct Hin as [Heq | Hin].
+  - subst x. rewrite Z.eqb_refl. rewrite zsum_map_zero; [lia|].
+    intros y Hy. destruct (a =? y) eqn:E; [apply Z.eqb_eq in E; subst; contradiction | reflexivity].
+  - destruct (a =? x) eqn:E; [apply Z.eqb_eq in E; subst; contradiction|]. rewrite IH by assumption. lia.
+Qed.
+
+Lemma zsum_swap : forall (L ks : list Z) (g : Z -> Z -> Z),
+  zsum (map (fun la => zsum (map (g la) ks)) L) = zsum (map (fun k => zsum (map (fun la => g la k) L)) ks).
+Proof.
+  induction L as [|x L IH]; intros ks g; cbn [map zsum].
+  - symmetry. apply zsum_map_zero. reflexivity.
+  - rewrite IH. rewrite <- zsum_map_add. reflexivity.
+Qed.
+
+Theorem label_total : forall labels states n (L : list Z),
+  NoDup L -> (forall k, 0 <= k < Z.of_nat n -> In (lab labels k) L) ->
+  (forall col x, In col states -> In x col -> -1 <= x < Z.of_nat n) ->
+  zsum (map (label_num labels states n) L) = visited_count states.
+Proof.
+  intros labels states n L Hnd Hlab Hrange. unfold label_num. rewrite zsum_swap.
+  rewrite <- (occupancy_sum n states Hrange). apply zsum_map_ext. intros k Hk. apply zrange_in in Hk.
+  rewrite occ_flat_is_occ_count. apply zsum_indicator; [exact Hnd | apply Hlab; lia].
+Qed.
+
+Lemma zsum_ones : forall n t, zsum (map (fun _ : Z => 1) (zrange t n)) = Z.of_nat n.
+Proof. induction n as [|n IH]; intros t; [reflexivity|]. rewrite zrange_S. cbn [map zsum]. rewrite IH. lia. Qed.
+
+Theorem label_sites_total : forall labels n (L : list Z),
+  NoDup L -> (forall k, 0 <= k < Z.of_nat n -> In (lab labels k) L) ->
+  zsum (map (label_sites labels n) L) = Z.of_nat n.
+Proof.
+  intros labels n L Hnd Hlab. unfold label_sites. rewrite zsum_swap.
+  transitivity (zsum (map (fun _ : Z => 1) (zrange 0 n))).
+  - apply zsum_map_ext. intros k Hk. apply zrange_in in Hk. apply zsum_indicator; [exact Hnd | apply Hlab; lia].
+  - apply zsum_ones.
+Qed.
